@@ -176,7 +176,9 @@ def build_instr(t):
     return cls.from_operands(ops)
 
 
-EXC_CLASSES = ["RuntimeError", "AssertionError", "IndexError", "ValueError", "TypeError"]
+EXC_CLASSES = ["RuntimeError", "AssertionError", "IndexError", "ValueError", "TypeError", "OverflowError"]
+# codes used by coq/Exec/ExecCheck.kind_class (5 = anything else)
+EXC_CODE = {"RuntimeError": 0, "AssertionError": 1, "IndexError": 2, "ValueError": 3, "TypeError": 4, "OverflowError": 6}
 
 
 def canon_exc(exc):
@@ -230,8 +232,7 @@ def run_case(case):
     """Run all subroutines of a case against ONE application state on the real
     Executor.  Returns a list (one per subroutine) of
     dict(out=(tag, class, line), pc=int, state=view), or None when the case is
-    discarded (an array longer than MAX_ARRAY would be created; in the hardware
-    configuration: a value left the hardware width).
+    discarded (an array longer than MAX_ARRAY would be created).
     case["hostlines"]: two thirds of the instructions carry a HostLine (the SDK's
     line tracker), as in a Subroutine handed over without serialisation.
     case["hardware"]: run with set_is_using_hardware(True) (reset afterwards)."""
@@ -262,7 +263,7 @@ def run_case(case):
                     pass
                 out, pc = ("halt", "", None), ex.final_pc
             except Exception as exc:  # noqa: the executor re-raises the class of the original error
-                if isinstance(exc, st["TooBig"]) or (hardware and isinstance(exc, OverflowError)):
+                if isinstance(exc, st["TooBig"]):
                     return None
                 out = canon_exc(exc)
                 pc = ex._program_counters.get(sid)
@@ -273,7 +274,10 @@ def run_case(case):
 
 
 def narrow_case(case):
-    """keep every immediate inside the hardware width (32-bit signed) -- for the hardware configuration"""
+    """keep every immediate inside the hardware width (32-bit signed) -- for the hardware configuration
+    (cases aimed at the width checks are left alone)"""
+    if case.get("tag", "").split(":")[-1] in OVF_TARGETS:
+        return case
     for prog in case["subs"]:
         for t in prog:
             if t[0] == "set" and not (-2 ** 31 <= t[2] < 2 ** 31):
@@ -390,7 +394,7 @@ def cq_out(out):
     if tag == "halt":
         return "IHalt"
     if tag == "fault":
-        c = EXC_CLASSES.index(cls) if cls in EXC_CLASSES else 5
+        c = EXC_CODE.get(cls, 5)
         return f"(IFault {c} {cq_z(line)})"
     if tag == "blocked":
         return f"(IBlocked {cq_z(line)})"
@@ -424,13 +428,15 @@ Open Scope Z_scope.
 """
 
 
-def write_case_file(path, coq_cases):
+def write_case_file(path, coq_cases, hardware=False):
+    """hardware=True: compare with the models under cfg_hardware (width checks active)"""
+    pre = "h" if hardware else ""
     with open(path, "w") as f:
         f.write(CASE_HEADER)
         f.write("Definition cases : list ecase :=\n [" + ";\n  ".join(coq_cases) + "].\n")
-        f.write("Eval vm_compute in (exec_failing cases).\n")
-        f.write("Eval vm_compute in (sem_failing cases).\n")
-        f.write("Eval vm_compute in (sem_open cases).\n")
+        f.write(f"Eval vm_compute in ({pre}exec_failing cases).\n")
+        f.write(f"Eval vm_compute in ({pre}sem_failing cases).\n")
+        f.write(f"Eval vm_compute in ({pre}sem_open cases).\n")
 
 
 def parse_lists(out):
@@ -583,7 +589,10 @@ FAULT_TARGETS = ["store-undef-reg", "store-undef-index", "load-undef-entry", "lo
                  "add-undef", "array-undef-size", "wait-all-blocked", "wait-any-empty", "wait-single-missing",
                  "wait-all-missing", "store-after-ret-arr", "redeclare-after-ret-arr", "branch-undef",
                  "negative-index", "jump-negative", "jump-past-end", "reg-index-16",
-                 "alloc-free-cycle", "counting-loop", "undef-then-load"]
+                 "alloc-free-cycle", "counting-loop", "undef-then-load",
+                 "ovf-set", "ovf-add", "ovf-store-value", "ovf-store-index", "ovf-address", "ovf-undef-index",
+                 "ovf-addm", "ovf-ret-reg", "ovf-boundary"]
+OVF_TARGETS = {t for t in FAULT_TARGETS if t.startswith("ovf-")}
 
 
 ALLOC_TARGETS = {"double-alloc", "free-unallocated", "qalloc-outside", "qalloc-undef", "qfree-outside",
@@ -644,6 +653,21 @@ def gen_fault_case(rng, target, fuel=60):
         "alloc-free-cycle": [["set", q, rng.randint(0, cap - 1)]] + [[rng.choice(["qalloc", "qfree"]), q] if rng.random() < 0.25
                                                                       else [["qalloc", q], ["qfree", q]][k % 2] for k in range(rng.randint(2, 7))],
         "counting-loop": None,
+        # values at / beyond the 32-bit width: OverflowError in the hardware configuration, plain values in simulation
+        "ovf-set": [["set", d, rng.choice([2 ** 31, -2 ** 31 - 1, 2 ** 40, -2 ** 63])]],
+        "ovf-add": [["set", q, 2 ** 31 - 1], ["set", e, rng.randint(1, 5)], [rng.choice(["add", "sub"]), d, q, e],
+                    ["set", q, -2 ** 31], ["sub", d, q, e]],
+        "ovf-store-value": [["set", q, n_arr + 1], ["array", q, A], ["set", q, 2 ** 31 - 1], ["set", e, 1], ["store", q, A, 0],
+                            ["add", q, q, e], ["store", q, A, 0]],
+        "ovf-store-index": [["set", e, 1], ["store", e, A, rng.choice([2 ** 31, 2 ** 35])], ["store", e, missing, 2 ** 31]],
+        "ovf-address": [[rng.choice(["load", "store"]), d, 2 ** 31, 0], ["undef", 2 ** 33, 0], ["ret_arr", 2 ** 31],
+                        ["wait_all", -2 ** 31 - 1, 0, 0]][rng.randint(0, 3):][:1] + [["lea", d, 2 ** 31], ["array", d, 2 ** 32]],
+        "ovf-undef-index": [["undef", A, 2 ** 31]],
+        "ovf-addm": [["set", q, 2 ** 33], ["set", e, 2 ** 32 + 5], ["set", f_, 1], ["addm", d, e, f_, q],
+                     ["set", q, 2 ** 31], ["addm", d, e, f_, q]],
+        "ovf-ret-reg": [["set", q, 2 ** 31 - 1], ["ret_reg", q], ["set", e, 1], ["add", q, q, e], ["ret_reg", q]],
+        "ovf-boundary": [["set", d, 2 ** 31 - 1], ["set", e, -2 ** 31], ["lea", f_, 2 ** 31 - 1], ["set", q, 1],
+                         ["array", q, 2 ** 31 - 1], ["store", d, 2 ** 31 - 1, 0], ["ret_arr", 2 ** 31 - 1], ["ret_reg", e]],
         "undef-then-load": [["set", q, n_arr + 2], ["array", q, A], ["store", d, A, 0], ["store", d, A, 1], ["undef", A, 1],
                             ["load", e, A, 0], ["load", f_, A, 1]],
     }[target]
